@@ -469,6 +469,23 @@ def enclosing_stmt(node):
     return n
 
 
+def clone(node):
+    """Structural copy of an AST (without the parent links, which would make
+    copy.deepcopy copy the whole module)."""
+    if isinstance(node, ast.AST):
+        new = node.__class__()
+        for f in node._fields:
+            if hasattr(node, f):
+                setattr(new, f, clone(getattr(node, f)))
+        for a in ("lineno", "col_offset", "end_lineno", "end_col_offset"):
+            if hasattr(node, a):
+                setattr(new, a, getattr(node, a))
+        return new
+    if isinstance(node, list):
+        return [clone(x) for x in node]
+    return node
+
+
 def walk_no_nested(node):
     """ast.walk that does not descend into nested function/class defs."""
     todo = [node]
